@@ -286,8 +286,14 @@ func (rustTarget) RunCells(e *Env, cells []*Cell) {
 		}
 		// 3. run
 		so, se, err := runSegments(c, func(in []byte) ([]byte, []byte, error) {
-			return Run(dir, rustRunTimout, rustEnv(), in, filepath.Join(dir, "vdriver"))
+			return RunCapped(dir, rustRunTimout, rustEnv(), in, MaxDriverOutput, filepath.Join(dir, "vdriver"))
 		})
+		if err != nil && strings.HasPrefix(err.Error(), ErrOutputLimit) {
+			// the answers printed before the limit are observations like any other
+			c.Out = ParseDriverOutput(so)
+			c.BuildLog = err.Error() + "; answers so far are kept"
+			return
+		}
 		if err != nil {
 			// the process died (abort, stack overflow, timeout): keep what it answered before
 			c.Stage, c.BuildLog = "run", fmt.Sprintf("%v\n%s", err, trunc(se, 4000))
